@@ -3,8 +3,11 @@ package main
 import (
 	"encoding/json"
 	"fmt"
+	"hash/fnv"
 	"os"
+	"sort"
 	"strconv"
+	"strings"
 	"time"
 
 	"mellium.im/xmpp/jid"
@@ -19,13 +22,29 @@ import (
 //	jid : name -> sequence of code points (the string form of the address; empty = zero JID)
 //	time: name -> <<unix seconds, nanoseconds, zone offset in seconds>>  ("T_zero" = time.Time{})
 //	int : name -> decimal string (sequence of code points)
+//	long: name -> a long text that is not written out: a run (code point c, n times) or the texts
+//	      named by `lines` joined by the code point `sep`; expanded here, deterministically
+//	xtime: name -> <<year, day of the year, second of the day, nanoseconds, zone offset in seconds>>,
+//	      an extreme time in its own zone (Unix seconds do not fit the specification's integers)
+//	maxtime: names of the largest time with a defined Unix time
+type longSym struct {
+	Kind  string   `json:"kind"`
+	C     int      `json:"c"`
+	N     int      `json:"n"`
+	Lines []string `json:"lines"`
+	Sep   int      `json:"sep"`
+}
+
 type symbols struct {
 	Str  map[string][]int `json:"str"`
 	Jid  map[string][]int `json:"jid"`
 	Time map[string][]int `json:"time"`
 	Int  map[string][]int `json:"int"`
 	// bytes: name -> sequence of byte values
-	Bytes map[string][]int `json:"bytes"`
+	Bytes   map[string][]int   `json:"bytes"`
+	Long    map[string]longSym `json:"long"`
+	XTime   map[string][]int   `json:"xtime"`
+	MaxTime []string           `json:"maxtime"`
 
 	str   map[string]string
 	rstr  map[string]string
@@ -62,6 +81,43 @@ func loadSymbols(path string) error {
 		}
 		sym.str[n], sym.rstr[s] = s, n
 	}
+	// long texts: runs first, then the texts made of lines (their lines are runs or short texts)
+	var longNames []string
+	for n := range sym.Long {
+		longNames = append(longNames, n)
+	}
+	sort.Strings(longNames)
+	for pass := 0; pass < 2; pass++ {
+		for _, n := range longNames {
+			l := sym.Long[n]
+			var s string
+			switch {
+			case pass == 0 && l.Kind == "run":
+				s = strings.Repeat(string(rune(l.C)), l.N)
+			case pass == 1 && l.Kind == "lines":
+				parts := make([]string, len(l.Lines))
+				for i, ln := range l.Lines {
+					p, ok := sym.str[ln]
+					if !ok {
+						return fmt.Errorf("long text %s: unknown line symbol %s", n, ln)
+					}
+					parts[i] = p
+				}
+				s = strings.Join(parts, string(rune(l.Sep)))
+			case l.Kind != "run" && l.Kind != "lines":
+				return fmt.Errorf("long text %s: unknown kind %q", n, l.Kind)
+			default:
+				continue
+			}
+			if o, dup := sym.rstr[s]; dup {
+				return fmt.Errorf("symbols %s and %s denote the same string", o, n)
+			}
+			if _, dup := sym.str[n]; dup {
+				return fmt.Errorf("symbol %s is defined twice", n)
+			}
+			sym.str[n], sym.rstr[s] = s, n
+		}
+	}
 	sym.jids, sym.rjid = map[string]jid.JID{}, map[string]string{}
 	for n, l := range sym.Jid {
 		s := cps(l)
@@ -92,6 +148,32 @@ func loadSymbols(path string) error {
 		}
 		sym.times[n] = time.Unix(int64(l[0]), int64(l[1])).In(loc)
 	}
+	for n, l := range sym.XTime {
+		if len(l) != 5 {
+			return fmt.Errorf("extreme time symbol %s: want <<year, day of year, second of day, nsec, offset>>", n)
+		}
+		loc := time.UTC
+		if l[4] != 0 {
+			loc = time.FixedZone("", l[4])
+		}
+		sym.times[n] = time.Date(l[0], 1, l[1], 0, 0, l[2], l[3], loc)
+		sym.Time[n] = []int{0, 0, l[4]}
+	}
+	for _, n := range sym.MaxTime {
+		sym.times[n] = time.Unix(1<<63-62135596801, 999999999).UTC()
+		sym.Time[n] = []int{0, 0, 0}
+	}
+	// two names for one (instant, zone offset) would make the projection ambiguous
+	for a, ta := range sym.times {
+		for b, tb := range sym.times {
+			if a < b && ta.Equal(tb) && sym.Time[a][2] == sym.Time[b][2] && a != "T_zero" && b != "T_zero" {
+				return fmt.Errorf("time symbols %s and %s denote the same instant and offset", a, b)
+			}
+		}
+		if a != "T_zero" && ta.IsZero() {
+			return fmt.Errorf("time symbol %s is time.Time{}", a)
+		}
+	}
 	sym.ints, sym.rint = map[string]string{}, map[string]string{}
 	for n, l := range sym.Int {
 		sym.ints[n], sym.rint[cps(l)] = cps(l), n
@@ -115,7 +197,19 @@ func SN(s string) string {
 	if n, ok := sym.rstr[s]; ok {
 		return n
 	}
-	return "?" + strconv.QuoteToASCII(s)
+	return "?" + quoteShort(s)
+}
+
+// quoteShort quotes a string that is not in the symbol table; a long one is shown by its length,
+// its two ends and a hash of the whole (equal strings have equal names, observations stay small).
+func quoteShort(s string) string {
+	if len(s) <= 160 {
+		return strconv.QuoteToASCII(s)
+	}
+	h := fnv.New64a()
+	h.Write([]byte(s))
+	return fmt.Sprintf("long(%d bytes, %d lines, fnv %x) %s ... %s", len(s), strings.Count(s, "\n")+1, h.Sum64(),
+		strconv.QuoteToASCII(s[:40]), strconv.QuoteToASCII(s[len(s)-40:]))
 }
 
 // J returns the address of a JID symbol.
